@@ -64,6 +64,10 @@ def closure_of_operand(b, o):
     return None
 
 
+# the rule itself compares the default (rayon) build with the sequential one; other features do not touch the parallel code
+THOROUGH_CONFIGS = ["async", "serde"]
+
+
 def run(ctx):
     F = ctx.facts("default")
     G = ctx.facts("nodefault")
